@@ -186,9 +186,101 @@ def run_goe(ctx, case):
     return Result(HELD, sigs=sigs, sample=sample, stats=stats)
 
 
+def run_kin(ctx, case):
+    """a surface whose sites and area belong to a kinetic reactant (Hfo_wOH <rate> kinetic_reactant sites/mol area/mol) while the reactant dissolves or grows:
+    after every step the sites follow the reactant (site balance) and the charge density computed from the species and the *current* area
+    (area/mol x KIN) obeys the charge law of the model (Gouy-Chapman, or C psi for -ccm) at the reported psi, I, eps, T"""
+    r = ctx.rng("kinsurf", case["i"])
+    f = gens.fmt
+    db = c01.get_db(ctx, "phreeqc.dat")
+    model = r.choice(["ddl", "ddl", "ccm"])
+    cap = r.choice([0.8, 1.2, 2.9])
+    m0 = gens.loguni(r, 3e-4, 3e-3)
+    grow = False                                    # the reactant's formula (FeOOH) must cover the sites' H and O; it dissolves into a water without iron
+    m_now = m0 * r.uniform(0.4, 1.6) if r.random() < 0.4 else m0      # -m differs from -m0: the surface belongs to what is there now
+    T = gens.loguni(r, 200, 5000)
+    frac = r.uniform(0.2, 0.8)                      # part of m0 that reacts over T
+    rate = (-1 if grow else 1) * frac * min(m0, m_now) / T
+    spm_w, spm_s, apm = round(r.uniform(0.05, 0.3), 3), r.choice([0.0, 0.005]), r.choice([5.34e4, 2e4, 8e4])
+    nst = r.randint(2, 5)
+    ph, ionic = round(r.uniform(4, 9.5), 2), gens.loguni(r, 1e-3, 0.3)
+    susp = [s2 for s2 in db.surface_species if any(k in ("Hfo_w", "Hfo_s") for k in db.composition(s2, db.surface_species))]
+    # keep to species whose aqueous partners are in this water
+    have = {"H", "O", "Na", "Cl", "Ca", "Fe", "Hfo_w", "Hfo_s"}
+    susp = [s2 for s2 in susp if set(db.composition(s2, db.surface_species)) <= have and (spm_s > 0 or "Hfo_s" not in db.composition(s2, db.surface_species))]
+    heads = ["tk", "mu", "eps", "kgw", "psi", "sigma", "charge", "kin"] + ["mol:%s" % s2 for s2 in susp]
+    items = ["TK", "MU", "EPS_R", 'TOT("water")', 'EDL("psi", "Hfo")', 'EDL("sigma", "Hfo")', 'EDL("charge", "Hfo")', 'KIN("surfrate")'] + ['MOL("%s")' % s2 for s2 in susp]
+    prog, ln = [], 10
+    for i in range(0, len(items), 6):
+        prog.append(" %d PUNCH %s" % (ln, ", ".join(items[i:i + 6])))
+        ln += 10
+    text = ("KNOBS\n -convergence_tolerance 1e-12\n -iterations 400\nRATES\n surfrate\n -start\n 10 SAVE PARM(1) * TIME\n -end\n"
+            "SELECTED_OUTPUT 1\n -reset false\n -state true\nUSER_PUNCH 1\n -headings %s\n -start\n%s\n -end\n" % (" ".join(heads), "\n".join(prog)) +
+            "SOLUTION 1\n temp %s\n pH %s\n units mol/kgw\n Na %s\n Cl %s charge\n Ca %s\n" % (f(r.choice([25, 25, 15, 40])), f(ph), f(ionic), f(ionic), f(gens.loguni(r, 1e-5, 1e-3))) +
+            "KINETICS 1\n surfrate\n -formula FeOOH 1\n -m0 %s\n -m %s\n -parms %s\n -tol 1e-10\n -steps %s in %d steps\n" % (f(m0), f(m_now), f(rate), f(T), nst) +
+            "SURFACE 1\n -equilibrate 1\n Hfo_wOH surfrate kinetic_reactant %s %s\n" % (f(spm_w), f(apm)) + (" Hfo_sOH surfrate kinetic_reactant %s\n" % f(spm_s) if spm_s else "") +
+            (" -ccm %s\n" % f(cap) if model == "ccm" else "") + "END\n")
+    cwd = ctx.scratch(case["id"])
+    s = core.Script()
+    s.raw("new a")
+    s.raw("loaddb a " + os.path.join(ctx.db, "phreeqc.dat"))
+    s.run("a", text)
+    s.raw("snap a se")
+    run = core.run_vdrive(ctx.bin("opt"), s.bytes(), cwd, timeout=120)
+    if core.process_failure(run):
+        return Result(INCONCLUSIVE, reason="process failure")
+    rr, sn = core.rets(run, "run"), core.rets(run, "snap")
+    if not rr or rr[0].get("r") != 0 or not sn or not sn[0]["selout"]:
+        et = (sn[0]["error"].get("text", "") if sn else "").strip().split("\n")[0]
+        return Result(INCONCLUSIVE, reason="run reports errors: " + " ".join(et.split())[:45])
+    cells = sn[0]["selout"][0]["cells"]
+    hd = [c[1] for c in cells[0]]
+    rows = [{h: (c[1] if c[0] == "s" else (float(c[1]) if c[0] in "dl" else None)) for h, c in zip(hd, row)} for row in cells[1:]]
+    rrows = [d for d in rows if d.get("state") == "react"]
+    if len(rrows) < 2:
+        return Result(INCONCLUSIVE, reason="no reaction rows")
+    findings, sigs, nchk, worst = [], set(), 0, 0.0
+    for k, d in enumerate(rrows):
+        m = d["kin"]
+        if m is None or m <= 0:
+            continue
+        kgw, tk, mu, eps, psi = d["kgw"], d["tk"], d["mu"], d["eps"], d["psi"]
+        mol = {h[4:]: v for h, v in d.items() if h.startswith("mol:") and v is not None}
+        for site, spm in (("Hfo_w", spm_w), ("Hfo_s", spm_s)):
+            if not spm:
+                continue
+            tot = sum(v * kgw * db.composition(sp, db.surface_species).get(site, 0.0) for sp, v in mol.items())
+            nchk += 1
+            if abs(tot - spm * m) > 1e-8 * spm * m:
+                findings.append(("C20/kinetic-surface/site-balance", "%s step %d: species of %s hold %.12g mol of sites, %g per mole x KIN = %.12g" % (case["id"], k + 1, site, tot, spm, spm * m)))
+        area = apm * m
+        q = sum(v * kgw * dbparse.charge_of(sp)[1] for sp, v in mol.items())
+        qabs = sum(abs(v * kgw * dbparse.charge_of(sp)[1]) for sp, v in mol.items())
+        sig_species = q * F_C / area
+        floor = 1e-9 * qabs * F_C / area
+        want = cap * psi if model == "ccm" else math.sqrt(8000.0 * eps * EPS0 * R_J * tk * mu) * math.sinh(F_C * psi / (2.0 * R_J * tk))
+        rel = abs(want - sig_species) / max(abs(want), abs(sig_species), 1e-30)
+        worst = max(worst, rel)
+        nchk += 1
+        sigs.add("kinetic-surface|%s|%s" % (model, "grows" if grow else "dissolves"))
+        if abs(want - sig_species) > 1e-7 * max(abs(want), abs(sig_species)) + floor and abs(sig_species) > 1e-12:
+            findings.append(("C20/kinetic-surface/charge-law/%s" % model, "%s step %d: reactant %.10g mol (m0 %.10g), area %.8g m2: sigma from species %.12g C/m2, %s at psi = %.9g V gives %.12g (relative %.2e)" % (
+                case["id"], k + 1, m, m0, area, sig_species, "C psi" if model == "ccm" else "Gouy-Chapman", psi, want, rel)))
+    stats = {"n_checks": nchk, "worst_sigma_rel": worst}
+    sample = dict(id=case["id"], model="kinetic-surface/" + model, m0=m0, m=m_now, rate=rate, steps=nst, pH=ph, I=ionic, rows=len(rrows), worst_sigma_rel=worst)
+    if findings:
+        k_, w_ = findings[0]
+        return Result(VIOLATED, key=k_, what=w_, findings=findings[1:], sigs=sigs, sample=sample, stats=stats)
+    if nchk == 0:
+        return Result(INCONCLUSIVE, reason="nothing checked")
+    return Result(HELD, sigs=sigs, sample=sample, stats=stats)
+
+
 def run_case(ctx, case):
     if case["i"] % 8 == 7:
         return run_goe(ctx, case)
+    if case["i"] % 8 == 3:
+        return run_kin(ctx, case)
     db = c01.get_db(ctx, case["db"])
     text, info = build(ctx, case, db)
     cwd = ctx.scratch(case["id"])
